@@ -5,6 +5,7 @@ import (
 	"encoding/json"
 	"fmt"
 	"math/rand"
+	"reflect"
 	"strings"
 
 	pipeline "github.com/buildkite/go-pipeline"
@@ -44,7 +45,7 @@ type docStrings struct {
 // made unique per document by suffixing a counter when a pool key repeats.
 func newDocGen(rng *rand.Rand) *docGen {
 	seen := map[string]int{}
-	g := &docGen{rng: rng, maxDepth: 3, typed: true, scalarEnv: true}
+	g := &docGen{rng: rng, maxDepth: 3, typed: true, scalarEnv: true, scalarCfg: true}
 	g.str = func(class string) string {
 		switch class {
 		case "key", "envname":
@@ -120,7 +121,7 @@ func docEvent(src string, denotes any, style string, R int) obj {
 		ev["errmsg"] = err.Error()
 	}
 	blank := obj{"t": "z"}
-	for _, k := range []string{"jav", "yav", "j2", "j3"} {
+	for _, k := range []string{"jav", "yav", "j2", "j3", "o1", "o1after", "o2", "o3"} {
 		ev[k] = blank
 	}
 	ev["same"], ev["solo"], ev["kinds"], ev["failed"], ev["warned"] = true, []any{}, []any{}, "", false
@@ -131,6 +132,7 @@ func docEvent(src string, denotes any, style string, R int) obj {
 			return
 		}
 		ev["warned"] = err != nil
+		ev["o1"] = objAV(pl) // the object itself, field by field, before anything is marshalled
 		j1, err := json.Marshal(pl)
 		if err != nil {
 			fail("json.Marshal", err)
@@ -178,6 +180,7 @@ func docEvent(src string, denotes any, style string, R int) obj {
 		}
 		ev["j3"] = mustAVJSON(j3, "third json output")
 		ev["kinds"] = []any{kindsOf(pl.Steps), kindsOf(p2.Steps), kindsOf(p3.Steps)}
+		ev["o1after"], ev["o2"], ev["o3"] = objAV(pl), objAV(p2), objAV(p3)
 		// stand-alone decoders on what was emitted
 		solo := []any{}
 		for _, s := range pl.Steps {
@@ -262,11 +265,72 @@ func genericFromDoc(d any) any {
 	return d
 }
 
+// historyFromDoc builds the same abstract map as genericFromDoc through a longer API
+// history, so that the backing storage differs (tombstones the compaction never saw):
+//
+//	1: a junk first key, deleted afterwards (slot 0 is a tombstone)
+//	2: the first key is first set to junk, its real pair entered under a temporary name and
+//	   then Replace(tmp, first, v) - which tombstones slot 0
+//	3: junk keys interleaved and deleted; every second key entered under a temporary name and renamed in place
+func historyFromDoc(d any, hist int) any {
+	switch x := d.(type) {
+	case orderedJSON:
+		m := ordered.NewMap[string, any](0)
+		switch {
+		case hist == 1 && len(x) >= 2:
+			m.Set("\x00junk", "junk")
+			for _, p := range x {
+				m.Set(p[0].(string), historyFromDoc(p[1], hist))
+			}
+			m.Delete("\x00junk")
+		case hist == 2 && len(x) >= 2:
+			m.Set(x[0][0].(string), "junk")
+			m.Set("\x00tmp", "tmp")
+			for _, p := range x[1:] {
+				m.Set(p[0].(string), historyFromDoc(p[1], hist))
+			}
+			m.Replace("\x00tmp", x[0][0].(string), historyFromDoc(x[0][1], hist))
+		case hist == 3:
+			for i, p := range x {
+				if i%2 == 0 {
+					m.Set(fmt.Sprintf("\x00junk%d", i), i)
+					m.Set(fmt.Sprintf("\x00tmp%d", i), "tmp")
+				} else {
+					m.Set(p[0].(string), historyFromDoc(p[1], hist))
+				}
+			}
+			for i, p := range x {
+				if i%2 == 0 {
+					m.Replace(fmt.Sprintf("\x00tmp%d", i), p[0].(string), historyFromDoc(p[1], hist))
+					m.Delete(fmt.Sprintf("\x00junk%d", i))
+				}
+			}
+		default:
+			for _, p := range x {
+				m.Set(p[0].(string), historyFromDoc(p[1], hist))
+			}
+		}
+		return m
+	case []any:
+		out := make([]any, 0, len(x))
+		for _, v := range x {
+			out = append(out, historyFromDoc(v, hist))
+		}
+		return out
+	}
+	return d
+}
+
 // progEvent: the programmatic clause of C08.
-func progEvent(doc orderedJSON) obj {
-	ev := obj{"kind": "prog", "m": avFromDoc(doc), "jback": obj{"t": "z"}, "yback": obj{"t": "z"}, "equalj": false, "equaly": false, "failed": ""}
+func progEvent(doc orderedJSON, hist int) obj {
+	ev := obj{"kind": "prog", "hist": hist, "m": avFromDoc(doc), "jback": obj{"t": "z"}, "yback": obj{"t": "z"}, "equalj": false, "equaly": false, "failed": ""}
 	p, msg := guarded(func() {
-		m := genericFromDoc(doc).(*ordered.MapSA)
+		m := historyFromDoc(doc, hist).(*ordered.MapSA)
+		if ref := genericFromDoc(doc).(*ordered.MapSA); !reflect.DeepEqual(toAV(m), toAV(ref)) {
+			// (the history must denote the document: Range is C05's subject, used here only as a harness self-check)
+			ev["failed"], ev["errmsg"] = "history", "the API history did not build the document"
+			return
+		}
 		jb, err := json.Marshal(m)
 		if err != nil {
 			ev["failed"], ev["errmsg"] = "json.Marshal", err.Error()
@@ -312,7 +376,10 @@ func runCDoc(args []string) {
 			if i%5 == 4 {
 				sz = 9 + rng.Intn(32)
 			}
-			tw.emit(progEvent(g.freeMap(0, sz)))
+			d := g.freeMap(0, sz)
+			for hist := 0; hist < 4; hist++ {
+				tw.emit(progEvent(d, hist))
+			}
 		}
 		writeSummary(fl.str("summary", ""), obj{"events": tw.n})
 		return
@@ -345,7 +412,12 @@ func runCDoc(args []string) {
 		// replay: the exact source text and the document it denotes
 		readNDJSON(cf, func(_ int, c obj) {
 			if c["style"] == "prog" {
-				emit(progEvent(docFromAV(c["doc"]).(orderedJSON)))
+				hist := 0
+				if h, ok := c["hist"].(json.Number); ok {
+					h64, _ := h.Int64()
+					hist = int(h64)
+				}
+				emit(progEvent(docFromAV(c["doc"]).(orderedJSON), hist))
 				return
 			}
 			ev := docEvent(c["src"].(string), nil, c["style"].(string), R)
